@@ -183,10 +183,35 @@ class History:
     def step(self):
         ctx = self.ctx
         op = self.gen_op()
-        self.ops.append(op)
-        res = self.r.step(op)
         kind = op[0]
         m = self.m
+        script = None
+        if kind in ('cdisc', 'sdisc', 'lose') and self.rng.random() < 0.3:
+            # the application's disconnect handler fails: the client is
+            # gone all the same.  A non-Exception (green-thread timeout or
+            # kill) only where one handler runs and the transport lives.
+            if kind == 'lose':
+                n = len([1 for s, o in self.owner.items()
+                         if o[0] == op[1] and m.connected(s, o[1])])
+                script = ['base'] if n == 1 and self.rng.random() < 0.5 \
+                    else [self.rng.choice(['exc', 'exc', 'ok'])
+                          for _ in range(n)]
+            else:
+                T = op[1] if kind == 'cdisc' else \
+                    self.owner.get(op[1], (None,))[0]
+                script = ['exc'] if T in self.stale or T is None else \
+                    [self.rng.choice(['exc', 'base'])]
+            self.r.disconnect_script = list(script)
+            self.ctx.count('disconnects_with_failing_handler')
+        self.ops.append(op + ([{'handler': script}] if script else []))
+        res = self.r.step(op)
+        self.r.disconnect_script = []
+        if script:
+            if res.get('exc') in ('Injected', 'InjectedBase'):
+                res['exc'] = None
+            if res.get('errors'):
+                res['errors'] = [e for e in res['errors'] if e['exc'] not in
+                                 ('Injected', 'InjectedBase')]
         sent = res.get('sent', {})
         if res.get('decode_errors'):
             return self.fail('server sent an undecodable frame', res)
@@ -417,6 +442,7 @@ def run(ctx):
     ctx.require('rooms_queries', 50)
     ctx.require('room_ops', 20)
     ctx.require('disconnects', 5)
+    ctx.require('disconnects_with_failing_handler', 5)
     ctx.require('clients_found_dead_during_emit', 3)
     ctx.require('connects_refused_by_handler', 5)
     # threaded server: emits racing with membership changes made by other
